@@ -5,7 +5,7 @@
 From Coq Require Import List ZArith Bool Sorting.Permutation.
 From FV Require Import Base OutputM Sched.
 From FV Require Info.
-From FVP Require Import Adapters_proofs Sched_proofs Confluence_proofs OutputM_proofs Series_proofs Termination_proofs Order_proofs Trace_proofs Confluence2_proofs.
+From FVP Require Import Adapters_proofs Sched_proofs Confluence_proofs OutputM_proofs Series_proofs Termination_proofs Order_proofs Trace_proofs Confluence2_proofs Trace2_proofs.
 From FVP Require Info_proofs.
 Import ListNotations.
 Open Scope Z_scope.
@@ -147,6 +147,26 @@ Proof.
   eapply init_running; eauto.
 Qed.
 
+(** The same with DelayToPull links: the block of the j-th update of a component is a function [ublock2 cs c j] of the
+    component and the update INDEX alone (the link states a pull goes through are the canonical ones after j-1 updates),
+    the trace of a run is the concatenation of the blocks of its updates, and per component the sequence of blocks is
+    [1, 2, ..., n] whatever the order. *)
+Theorem C05_series_order_independent_with_delay_to_pull :
+  forall cs endt m prio1 prio2 fuel1 fuel2 st1 acc1 st2 acc2,
+    wf cs -> nopush cs -> min_start cs = Some m -> m < endt ->
+    (forall c, (c < length cs)%nat -> In c prio1) ->
+    (forall c, (c < length cs)%nat -> In c prio2) ->
+    run_prio prio1 fuel1 cs endt = (OOk, st1, acc1) ->
+    run_prio prio2 fuel2 cs endt = (OOk, st2, acc2) ->
+    exists us1 us2,
+      acc1 = trace2 cs us1 /\ acc2 = trace2 cs us2 /\
+      forall c, is_time cs c = true -> ups2_of c us1 = ups2_of c us2 /\ ups2_of c us1 = canon2 c (s_cnt st1 c).
+Proof.
+  intros cs endt m prio1 prio2 fuel1 fuel2 st1 acc1 st2 acc2 W NP Hm Hlt H1 H2 R1 R2.
+  eapply (series_order_independent2 cs W NP endt); [apply pick_prio_ok; exact H1|apply pick_prio_ok; exact H2| |exact R1|exact R2].
+  eapply init_running; eauto.
+Qed.
+
 (** a block does not depend on what happened before it *)
 Theorem C05_block_is_local :
   forall cs c t acc, ublock cs c t acc = ublock cs c t [] ++ acc.
@@ -283,6 +303,7 @@ Print Assumptions C05_delivery_independent_of_later_publications.
 Print Assumptions C05_delivery_schedule_independent.
 Print Assumptions C05_metadata_order_independent.
 Print Assumptions C05_series_order_independent.
+Print Assumptions C05_series_order_independent_with_delay_to_pull.
 Print Assumptions C05_block_is_local.
 Print Assumptions C05_every_order_same_outcome.
 Print Assumptions C05_every_order_reports_cycle.
